@@ -421,4 +421,127 @@ def _reset_pathos():
         pass
 
 
-FACETS = [Sequential(), Parallel(), GPRuns()]
+class ShortLivedProblems(Facet):
+    """The same individuals are scored under a succession of problem objects, each built inside a helper,
+    used once and released before the next one is built (a loop over data sets, folds, targets ...):
+    every new problem must have its own fitness function invoked once per individual and its own
+    values recorded - whatever an individual remembers about a problem that no longer exists."""
+
+    name = "successive_short_lived_problems"
+
+    def budget(self, tier):
+        return (100, 2) if tier == "quick" else (600, 8)
+
+    def strategy(self, tier):
+        return st.builds(
+            lambda vals, gens, seed: {"values": vals, "generations": gens, "seed": seed},
+            st.lists(st.integers(-5, 5), min_size=1, max_size=6),
+            st.lists(st.tuples(st.sampled_from(["single", "multi2", "multi3"]), st.booleans(), st.sampled_from(["keep-nothing", "del", "helper"])), min_size=2, max_size=12),
+            st.integers(0, 2**31),
+        )
+
+    def run(self, case, rec):
+        from geneticengine.evaluation.sequential import SequentialEvaluator
+        from geneticengine.problems import MultiObjectiveProblem, SingleObjectiveProblem
+        from geneticengine.solutions.individual import Individual
+
+        rep = TableRep()
+        inds = [Individual((i, v), rep) for i, v in enumerate(case["values"])]
+        ev = SequentialEvaluator()
+        rec.sample(case, limit=2)
+        state = {"bad": None}
+
+        def one(g, kind, minimize):
+            log = []
+            off = 100.0 * (g + 1)
+            k = {"single": 1, "multi2": 2, "multi3": 3}[kind]
+            if k == 1:
+                problem = SingleObjectiveProblem(lambda p: (log.append(p[0]), p[1] + off)[1], minimize=minimize)
+            else:
+                problem = MultiObjectiveProblem([minimize] * k, lambda p: (log.append(p[0]), [p[1] + off + j for j in range(k)])[1])
+            ev.evaluate(problem, list(inds))
+            if sorted(log) != list(range(len(inds))):
+                state["bad"] = ("C13/short-lived-problems/fitness-function-not-invoked-once-per-individual", f"problem #{g} ({kind}, minimize={minimize}): fitness function invoked for individuals {sorted(log)}, expected each of {list(range(len(inds)))} once")
+                return
+            for i, ind in enumerate(inds):
+                f = ind.get_fitness(problem)
+                exp = [case["values"][i] + off + j for j in range(k)]
+                if list(f.fitness_components) != exp:
+                    state["bad"] = ("C13/short-lived-problems/stored-components-differ-from-fitness-function", f"problem #{g} ({kind}): individual #{i} has components {list(f.fitness_components)}, its fitness function returns {exp}")
+                    return
+                exp_agg = sum(-x if minimize else x for x in exp)
+                if abs(f.maximizing_aggregate - exp_agg) > 1e-9:
+                    state["bad"] = ("C13/short-lived-problems/aggregate-wrong", f"problem #{g} ({kind}, minimize={minimize}): individual #{i} has aggregate {f.maximizing_aggregate}, expected {exp_agg}")
+                    return
+
+        for g, (kind, minimize, how) in enumerate(case["generations"]):
+            one(g, kind, minimize)  # the problem object is released when one() returns
+            if state["bad"]:
+                rec.fail(state["bad"][0], state["bad"][1] + f"; values {case['values']}, problems so far {case['generations'][: g + 1]}")
+                return
+        if len(case["generations"]) >= 3:
+            rec.nontrivial(case)
+
+
+class ParallelOnRepresentations(Facet):
+    """ParallelEvaluator on freshly created (not yet mapped) individuals of every representation: the
+    recorded fitness must be the fitness function's value for the program the individual reports
+    afterwards (the mapping happens on a pickled copy inside a worker process)."""
+
+    name = "parallel_evaluator_on_unmapped_individuals"
+    fuzz_runs = 0  # every case spawns processes: too slow for a coverage-guided campaign
+
+    def budget(self, tier):
+        return (6, 4) if tier == "quick" else (40, 8)
+
+    def strategy(self, tier):
+        return st.builds(
+            lambda seed, rep, n: {"seed": seed, "rep": rep, "n": n},
+            st.integers(0, 2**31),
+            st.sampled_from(["tree", "ge", "sge", "dsge", "stack"]),
+            st.integers(1, 4),
+        )
+
+    def run(self, case, rec):
+        import hashlib
+
+        from geneticengine.evaluation.parallel import ParallelEvaluator
+        from geneticengine.problems import SingleObjectiveProblem
+        from geneticengine.solutions.individual import Individual
+        from vk.props.c15 import make_world
+        from vk.refmodel import canon, canon_str
+
+        _reset_pathos()
+        w = make_world(case["seed"], case["rep"])
+        try:
+            info = w.info
+
+            def ff(p):
+                return float(int(hashlib.sha256(canon_str(canon(p, info)).encode()).hexdigest()[:6], 16))
+
+            problem = SingleObjectiveProblem(ff)
+            inds = [Individual(w.rep.create_genotype(w.random), w.rep) for _ in range(case["n"])]
+            rec.label("rep:" + case["rep"])
+            try:
+                ParallelEvaluator().evaluate(problem, inds)
+            except Exception as e:  # noqa: BLE001
+                rec.discard()
+                rec.label("discarded:" + type(e).__name__)
+                return
+            rec.nontrivial((case["rep"], case["seed"], case["n"]))
+            for k, ind in enumerate(inds):
+                got = ind.get_fitness(problem).fitness_components[0]
+                p = ind.get_phenotype()
+                exp = ff(p)
+                if got != exp:
+                    rec.fail(
+                        f"C13/parallel/recorded-fitness-is-not-the-fitness-of-the-individual's-program/{case['rep']}",
+                        f"{case['rep']} individual #{k}: recorded fitness {got}, but its program {canon_str(canon(p, info))} has fitness {exp} (the worker evaluated another program)",
+                    )
+                    return
+        finally:
+            w.cleanup()
+            _reset_pathos()
+
+
+FACETS = [Sequential(), Parallel(), GPRuns(), ShortLivedProblems(), ParallelOnRepresentations()]
